@@ -650,7 +650,7 @@ Proof.
   pose proof (release_bucket_spec 1 v3 L3 W3 ltac:(lia)) as R1. cbv zeta in R1.
   destruct (release_bucket 1 (v3, L3)) as [v4 L4]. cbn [fst snd] in R1.
   destruct R1 as (W4 & Sh4 & Sz4 & NB4 & G4 & GN4 & B4 & C4 & E4 & N4).
-  split; [congruence|].
+  cbn [snd]. split; [congruence|].
   intros CV. destruct (life_ok_lnet _ _ _ _ LO1 CV) as (CV1 & LN1).
   destruct (CL2 CV1) as (EL2 & CV2). subst L2.
   assert (NL2 : forall j, 0 <= j -> live_at v2 j = false) by (intros j Hj; apply CV2; lia).
@@ -661,4 +661,471 @@ Proof.
     - intros k. destruct (Z.eq_dec k 0) as [->|Nk]; [right; exact GN3 | left; apply G3; exact Nk].
     - apply NL2. pose proof (bucket_start_mono (v_shift v3) 0 1 ltac:(apply W3) ltac:(lia)) as M. unfold bucket_start at 1 in M. simpl in M. lia. }
   subst L4. replace (- v_size v) with (v_size v1 - v_size v) by lia. exact LN1.
+Qed.
+
+(* ------------------------------------------------------------------------------------------------ erase *)
+Lemma removelast_as_erase l : 1 <= zlen l -> removelast l = zfirstn (zlen l - 1) l ++ zskipn (zlen l - 1 + 1) l.
+Proof.
+  intros H. rewrite removelast_firstn_len. unfold zfirstn, zskipn, zlen in *.
+  replace (Z.to_nat (Z.of_nat (length l) - 1 + 1)) with (length l) by lia. rewrite skipn_all, app_nil_r.
+  f_equal. lia.
+Qed.
+
+(* erase(pos): contents as std::vector; the returned position and the lifetimes only when nothing has to shift *)
+Lemma erase_one_spec tr pos v L : vinv tr v -> 0 <= pos < v_size v ->
+  let r := erase_one pos (v, L) in
+  let v' := fst (fst r) in let L' := snd (fst r) in
+  vinv tr v' /\ abs v' = zfirstn pos (abs v) ++ zskipn (pos + 1) (abs v) /\ cl_bad L' = cl_bad L /\ v_shift v' = v_shift v /\
+  (pos = v_size v - 1 -> snd r = pos /\ life_ok v L v' L').
+Proof.
+  intros I Hp. unfold erase_one, vl_size, vl_with_size. cbn [fst snd].
+  replace (v_size v =? pos) with false by lia.
+  destruct (v_size v - 1 =? pos) eqn:E.
+  - (* last element: exactly pop_back *)
+    pose proof (pop_back_spec tr v L I ltac:(lia)) as P. cbv zeta in P. unfold pop_back, vl_size, vl_with_size in P. cbn [fst snd] in P.
+    cbn [fst snd]. destruct P as (P1 & P2 & P3 & P4 & P5).
+    split; [exact P1|]. split.
+    { rewrite P2. assert (pos = zlen (abs v) - 1) as -> by (rewrite zlen_abs by lia; lia).
+      apply removelast_as_erase. rewrite zlen_abs by lia. lia. }
+    split; [exact P3|]. split; [exact P4|]. intros _. split; [lia | exact P5].
+  - cbn [fst snd].
+    set (v1 := with_size v (v_size v - 1)).
+    pose proof (move_fwd_spec 1 (Z.to_nat (v_size v - (pos + 1))) pos v1 L (vi_wf _ _ I) ltac:(lia) ltac:(lia)
+                  ltac:(intros j Hj; unfold v1; rewrite valid_idx_with_size; apply (vinv_valid tr); [exact I | lia])) as M.
+    cbv zeta in M. set (r := move_fwd (Z.to_nat (v_size v - (pos + 1))) (pos + 1) pos (v1, L)) in *.
+    destruct M as (S2 & B2 & T2 & F2 & _).
+    assert (I1 : vinv tr v1) by (apply vinv_smaller; [exact I | lia]).
+    split; [eapply vinv_same_store; eauto|].
+    assert (Sz' : v_size (fst r) = v_size v - 1) by (destruct S2 as (_ & X & _); exact X).
+    split.
+    { apply abs_ext; [lia | rewrite zlen_app, zlen_firstn, zlen_skipn by (rewrite zlen_abs by lia; lia); rewrite zlen_abs by lia; lia|].
+      intros j Hj. rewrite T2 by lia. rewrite znth_app by lia. rewrite zlen_firstn by (rewrite zlen_abs by lia; lia).
+      replace (Z.max (pos + 1) (pos + Z.of_nat (Z.to_nat (v_size v - (pos + 1)))) <=? j) with false by lia. rewrite andb_false_l.
+      destruct (j <? pos) eqn:E1.
+      - replace ((pos <=? j) && (j <? pos + Z.of_nat (Z.to_nat (v_size v - (pos + 1))))) with false by lia.
+        rewrite znth_firstn, znth_abs by lia. reflexivity.
+      - replace ((pos <=? j) && (j <? pos + Z.of_nat (Z.to_nat (v_size v - (pos + 1))))) with true by lia.
+        rewrite znth_skipn, znth_abs by lia. unfold tag_at, v1. rewrite get_cell_with_size. f_equal. f_equal. lia. }
+    split; [exact B2|]. split; [destruct S2 as (X & _); exact X|]. intros; lia.
+Qed.
+
+Lemma erase_range_spec tr first last v L : vinv tr v -> 0 <= first <= last -> last <= v_size v ->
+  let r := erase_range first last (v, L) in
+  let v' := fst (fst r) in let L' := snd (fst r) in
+  vinv tr v' /\ abs v' = zfirstn first (abs v) ++ zskipn last (abs v) /\ cl_bad L' = cl_bad L /\ v_shift v' = v_shift v /\
+  (first = last \/ last = v_size v -> snd r = first /\ life_ok v L v' L').
+Proof.
+  intros I Hf Hl. unfold erase_range, vl_size, vl_with_size. cbn [fst snd]. pose proof (vi_size _ _ I) as Sz.
+  destruct (last - first =? 0) eqn:E.
+  - assert (last = first) by lia. subst last. cbn [fst snd]. split; [exact I|]. split.
+    { unfold zfirstn, zskipn. rewrite firstn_skipn. reflexivity. }
+    split; [reflexivity|]. split; [reflexivity|]. intros _. split; [lia | apply life_ok_refl].
+  - set (n := Z.to_nat (v_size v - last)). set (d := last - first).
+    pose proof (move_fwd_spec d n first v L (vi_wf _ _ I) ltac:(lia) ltac:(lia)
+                  ltac:(intros j Hj; apply (vinv_valid tr); [exact I | lia])) as M.
+    cbv zeta in M. replace (first + d) with last in M by lia.
+    set (r1 := move_fwd n last first (v, L)) in *.
+    destruct M as (S1 & B1 & T1 & F1 & D1).
+    assert (I1 : vinv tr (fst r1)) by (eapply vinv_same_store; eauto).
+    assert (Sz1 : v_size (fst r1) = v_size v) by (destruct S1 as (_ & X & _); exact X).
+    assert (Sh1 : v_shift (fst r1) = v_shift v) by (destruct S1 as (X & _); exact X).
+    set (e_it := first + (v_size v - last)).
+    (* the optional destruction loop *)
+    assert (R2 : exists v2 L2, (if e_it <? last then destroy_down (Z.to_nat (last - e_it)) last r1 else r1) = (v2, L2) /\
+                 same_store (fst r1) v2 /\ cl_bad L2 = cl_bad L /\
+                 (forall j, 0 <= j -> get_cell v2 j = if (e_it <=? j) && (j <? last) then destroyed (get_cell (fst r1) j) else get_cell (fst r1) j) /\
+                 ((forall j, e_it <= j < last -> live_at (fst r1) j = true) -> ldelta (snd r1) L2 0 (Z.max 0 (last - e_it)))).
+    { destruct (e_it <? last) eqn:E2.
+      - pose proof (destroy_down_spec (Z.to_nat (last - e_it)) last (fst r1) (snd r1) (vi_wf _ _ I1) ltac:(lia)
+                      ltac:(intros j Hj; apply (vinv_valid tr); [exact I1 | lia])) as [(S2 & B2 & C2) D2].
+        destruct r1 as [v1 L1]. cbn [fst snd] in *.
+        destruct (destroy_down (Z.to_nat (last - e_it)) last (v1, L1)) as [v2 L2] eqn:ED. cbn [fst snd] in *.
+        exists v2, L2. split; [reflexivity|]. split; [exact S2|]. split; [congruence|]. split.
+        + intros j Hj. rewrite C2 by exact Hj. replace (last - Z.of_nat (Z.to_nat (last - e_it))) with e_it by lia. reflexivity.
+        + intros Lv. eapply ldelta_eq; [apply D2 | reflexivity | lia]. intros j Hj. apply Lv. lia.
+      - destruct r1 as [v1 L1]. cbn [fst snd] in *. exists v1, L1. split; [reflexivity|]. split; [apply same_store_refl|].
+        split; [exact B1|]. split.
+        + intros j Hj. replace ((e_it <=? j) && (j <? last)) with false by lia. reflexivity.
+        + intros _. replace (Z.max 0 (last - e_it)) with 0 by lia. apply ldelta_refl. }
+    destruct R2 as (v2 & L2 & ER & S2 & B2 & C2 & D2). fold e_it. rewrite ER. cbn [fst snd].
+    assert (I2 : vinv tr v2) by (eapply vinv_same_store; eauto).
+    assert (Sz2 : v_size v2 = v_size v) by (destruct S2 as (_ & X & _); lia).
+    split; [apply vinv_smaller; [exact I2 | lia]|].
+    split.
+    { apply abs_ext; [simpl; lia | rewrite zlen_app, zlen_firstn, zlen_skipn by (rewrite zlen_abs by lia; lia); rewrite zlen_abs by lia; simpl; lia|].
+      simpl v_size. intros j Hj. unfold tag_at. rewrite get_cell_with_size, C2 by lia.
+      replace ((e_it <=? j) && (j <? last)) with false by lia. fold (tag_at (fst r1) j). rewrite T1 by lia.
+      rewrite znth_app by lia. rewrite zlen_firstn by (rewrite zlen_abs by lia; lia).
+      replace (Z.max last (first + Z.of_nat n) <=? j) with false by lia. rewrite andb_false_l.
+      destruct (j <? first) eqn:E1.
+      - replace ((first <=? j) && (j <? first + Z.of_nat n)) with false by lia. rewrite znth_firstn, znth_abs by lia. reflexivity.
+      - replace ((first <=? j) && (j <? first + Z.of_nat n)) with true by lia.
+        rewrite znth_skipn, znth_abs by lia. unfold tag_at. f_equal. f_equal. lia. }
+    split; [exact B2|]. split; [simpl; destruct S2 as (X & _); lia|].
+    intros [Heq|Heq]; [lia|]. subst last.
+    (* nothing to move: the erased range is the tail *)
+    assert (n = 0%nat) by lia. split; [unfold e_it; lia|].
+    intros [CA CB].
+    assert (G1 : forall j, 0 <= j -> get_cell (fst r1) j = get_cell v j).
+    { intros j Hj. unfold r1. rewrite H. reflexivity. }
+    assert (EL : snd r1 = L) by (unfold r1; rewrite H; reflexivity).
+    split.
+    + split; simpl v_size.
+      * intros j Hj. unfold st_at. rewrite get_cell_with_size, C2 by lia. replace ((e_it <=? j) && (j <? v_size v)) with false by lia.
+        rewrite G1 by lia. apply CA. lia.
+      * intros j Hj. unfold live_at, st_at. rewrite get_cell_with_size, C2 by lia.
+        destruct ((e_it <=? j) && (j <? v_size v)) eqn:E3.
+        -- unfold destroyed. simpl. destruct (c_st (get_cell (fst r1) j)); reflexivity.
+        -- rewrite G1 by lia. apply (CB j). lia.
+    + exists 0, (v_size v - first). split; [|simpl; lia]. rewrite <- EL.
+      eapply ldelta_eq; [apply D2 | reflexivity | unfold e_it; lia].
+      intros j Hj. unfold live_at, st_at. rewrite G1 by lia. fold (st_at v j). rewrite CA by (unfold e_it in Hj; lia). reflexivity.
+Qed.
+
+(* ------------------------------------------------------------------------------------------------ insert *)
+Lemma loop_res_vinv tr v L r g : vinv tr v -> loop_res v L r g -> vinv tr (fst r).
+Proof. intros I (S & _). eapply vinv_same_store; eauto. Qed.
+
+(* insert(pos, value): contents and position as std::vector (the lifetimes are not: see C32_refuted_insert) *)
+Lemma insert_one_spec tr max_n k pos t v L : fits tr max_n -> vinv tr v -> 0 <= pos <= v_size v -> v_size v + 1 <= max_n ->
+  let r := insert_one tr k pos t (v, L) in
+  let v' := fst (fst r) in let L' := snd (fst r) in
+  vinv tr v' /\ abs v' = zfirstn pos (abs v) ++ t :: zskipn pos (abs v) /\ snd r = pos /\ cl_bad L' = cl_bad L /\ v_shift v' = v_shift v.
+Proof.
+  intros F I Hp Hn. unfold insert_one, vl_size, vl_with_size. cbn [fst snd].
+  pose proof (alloc_at_spec tr max_n v L F I Hn) as A. cbv zeta in A.
+  destruct (alloc_at tr (v_size v) (with_size v (v_size v + 1), L)) as [v1 L1]. cbn [fst snd] in A.
+  destruct A as (EL & I1 & Sz1 & Sh1 & C1). subst L1. pose proof (vi_size _ _ I) as Sz.
+  assert (V1 : valid_idx v1 (v_size v) = true) by (apply (vinv_valid tr); [exact I1 | lia]).
+  rewrite upd_cell_valid by exact V1. rewrite c_construct_cell.
+  set (v2 := set_cell v1 (v_size v) (mkCell Alive 0)). set (L2 := snd (c_construct KValue 0 (get_cell v1 (v_size v)) L)).
+  assert (I2 : vinv tr v2) by (eapply vinv_same_store; [apply same_store_set_cell | exact I1]).
+  assert (Sz2 : v_size v2 = v_size v + 1) by (unfold v2; rewrite set_cell_size; exact Sz1).
+  assert (G2 : forall j, 0 <= j -> get_cell v2 j = if v_size v =? j then mkCell Alive 0 else get_cell v j).
+  { intros j Hj. unfold v2. rewrite get_set_cell by (auto; try lia; apply (vi_wf _ _ I1)). rewrite C1. reflexivity. }
+  pose proof (move_bwd_spec 1 (Z.to_nat (v_size v - pos)) (v_size v) v2 L2 (vi_wf _ _ I2) ltac:(lia) ltac:(lia)
+                ltac:(intros j Hj; apply (vinv_valid tr); [exact I2 | lia])) as M.
+  cbv zeta in M. set (r3 := move_bwd (Z.to_nat (v_size v - pos)) (v_size v) (v_size v + 1) (v2, L2)) in *.
+  destruct M as (S3 & B3 & T3 & F3 & _).
+  assert (I3 : vinv tr (fst r3)) by (eapply vinv_same_store; eauto).
+  assert (Sz3 : v_size (fst r3) = v_size v + 1) by (destruct S3 as (_ & X & _); lia).
+  destruct r3 as [v3 L3] eqn:E3. cbn [fst snd] in *.
+  assert (V3 : valid_idx v3 pos = true) by (apply (vinv_valid tr); [exact I3 | lia]).
+  rewrite upd_cell_valid by exact V3. cbn [fst snd]. rewrite c_construct_cell, c_construct_bad.
+  set (v4 := set_cell v3 pos (mkCell Alive t)).
+  split; [eapply vinv_same_store; [apply same_store_set_cell | exact I3]|].
+  split.
+  { apply abs_ext; [unfold v4; rewrite set_cell_size; lia | |].
+    - rewrite zlen_app, zlen_cons, zlen_firstn, zlen_skipn by (rewrite zlen_abs by lia; lia). rewrite zlen_abs by lia.
+      unfold v4. rewrite set_cell_size. lia.
+    - unfold v4 at 1. rewrite set_cell_size, Sz3. intros j Hj. unfold tag_at, v4.
+      rewrite get_set_cell by (auto; try lia; apply (vi_wf _ _ I3)).
+      rewrite znth_app by lia. rewrite zlen_firstn by (rewrite zlen_abs by lia; lia).
+      destruct (pos =? j) eqn:E1.
+      + replace (j <? pos) with false by lia. rewrite znth_cons by lia. replace (j - pos =? 0) with true by lia. reflexivity.
+      + fold (tag_at v3 j). rewrite T3 by lia.
+        destruct (j <? pos) eqn:E2.
+        * replace ((v_size v + 1 - Z.of_nat (Z.to_nat (v_size v - pos)) <=? j) && (j <? v_size v + 1)) with false by lia.
+          replace ((v_size v - Z.of_nat (Z.to_nat (v_size v - pos)) <=? j)) with false by lia. rewrite andb_false_l.
+          unfold tag_at. rewrite G2 by lia. replace (v_size v =? j) with false by lia. rewrite znth_firstn, znth_abs by lia. reflexivity.
+        * replace ((v_size v + 1 - Z.of_nat (Z.to_nat (v_size v - pos)) <=? j) && (j <? v_size v + 1)) with true by lia.
+          unfold tag_at. rewrite G2 by lia. replace (v_size v =? j - 1) with false by lia.
+          rewrite znth_cons by lia. replace (j - pos =? 0) with false by lia. rewrite znth_skipn, znth_abs by lia.
+          unfold tag_at. f_equal. f_equal. lia. }
+  split; [reflexivity|]. split; [rewrite B3; unfold L2; apply c_construct_bad|].
+  unfold v4. rewrite set_cell_shift. destruct S3 as (X & _). rewrite X. unfold v2. rewrite set_cell_shift. exact Sh1.
+Qed.
+
+Lemma insert_list_spec tr max_n pos tags v L : fits tr max_n -> vinv tr v -> 0 <= pos <= v_size v -> v_size v + zlen tags <= max_n ->
+  let r := insert_list tr pos tags (v, L) in
+  let v' := fst (fst r) in let L' := snd (fst r) in
+  vinv tr v' /\ abs v' = zfirstn pos (abs v) ++ tags ++ zskipn pos (abs v) /\ snd r = pos /\ cl_bad L' = cl_bad L /\
+  v_shift v' = v_shift v /\ life_ok v L v' L'.
+Proof.
+  intros F I Hp Hn. unfold insert_list, vl_size, vl_with_size. cbn [fst snd].
+  pose proof (zlen_nonneg tags) as ZN. pose proof (vi_size _ _ I) as Sz.
+  pose proof (alloc_span_grow tr max_n v L (zlen tags) F I ZN Hn) as A. cbv zeta in A. unfold zlen in A.
+  destruct (alloc_span tr (v_size v) (Z.of_nat (length tags)) (with_size v (v_size v + Z.of_nat (length tags)), L)) as [v1 L1].
+  cbn [fst snd] in A. destruct A as (EL & I1 & Sz1 & Sh1 & C1). subst L1.
+  fold (zlen tags) in *. set (len := zlen tags) in *. set (e := v_size v) in *.
+  (* default-construct [e, e + len) *)
+  pose proof (construct_down_spec (length tags) (e + len) v1 L (vi_wf _ _ I1) ltac:(unfold len, zlen; lia)
+                ltac:(intros j Hj; apply (vinv_valid tr); [exact I1 | unfold len, zlen in *; lia])) as [(S2 & B2 & C2) D2].
+  set (r2 := construct_down (length tags) (e + len) (v1, L)) in *.
+  assert (I2 : vinv tr (fst r2)) by (eapply vinv_same_store; eauto).
+  assert (Sz2 : v_size (fst r2) = e + len) by (destruct S2 as (_ & X & _); lia).
+  assert (Sh2 : v_shift (fst r2) = v_shift v) by (destruct S2 as (X & _); lia).
+  assert (G2 : forall j, 0 <= j -> get_cell (fst r2) j = if (e <=? j) && (j <? e + len) then mkCell Alive 0 else get_cell v j).
+  { intros j Hj. rewrite C2 by exact Hj. replace (e + len - Z.of_nat (length tags)) with e by (unfold len, zlen; lia). rewrite C1. reflexivity. }
+  destruct r2 as [v2 L2] eqn:E2. cbn [fst snd] in *.
+  (* move [pos, e) up by len *)
+  assert (R3 : exists v3 L3, move_bwd (Z.to_nat (e - pos)) e (e + len) (v2, L2) = (v3, L3) /\ same_store v2 v3 /\ cl_bad L3 = cl_bad L /\
+    (forall j, 0 <= j -> tag_at v3 j = if (pos + len <=? j) && (j <? e + len) then tag_at v (j - len)
+                                        else if (pos <=? j) && (j <? Z.min e (pos + len)) then (if len =? 0 then tag_at v j else kMovedTag)
+                                        else tag_at v2 j) /\
+    (clean v -> ldelta L2 L3 0 0 /\ (forall j, pos <= j < e + len -> live_at v3 j = true) /\
+                (forall j, pos + len <= j < e + len -> st_at v3 j = Alive) /\
+                (forall j, 0 <= j -> j < pos \/ e + len <= j -> get_cell v3 j = get_cell v2 j))).
+  { assert (LV2 : clean v -> forall j, pos <= j < e + len -> live_at v2 j = true).
+    { intros [CA CB] j Hj. unfold live_at, st_at. rewrite G2 by lia. destruct ((e <=? j) && (j <? e + len)) eqn:E1; [reflexivity|].
+      fold (st_at v j). rewrite CA by (unfold e in *; lia). reflexivity. }
+    destruct (Z.eq_dec len 0) as [L0|LN].
+    - rewrite L0. replace (e + 0) with e by lia.
+      pose proof (move_bwd_self (Z.to_nat (e - pos)) e v2 L2 (vi_wf _ _ I2) ltac:(lia)
+                    ltac:(intros j Hj; apply (vinv_valid tr); [exact I2 | lia])) as M. cbv zeta in M.
+      destruct (move_bwd (Z.to_nat (e - pos)) e e (v2, L2)) as [v3 L3]. cbn [fst snd] in M.
+      destruct M as (S3 & B3 & T3 & F3 & D3). exists v3, L3. split; [reflexivity|]. split; [exact S3|]. split; [congruence|]. split.
+      + intros j Hj. rewrite T3 by exact Hj. unfold tag_at. rewrite G2 by lia.
+        replace ((e <=? j) && (j <? e + len)) with false by lia.
+        ifs; try lia; try reflexivity. replace (j - 0) with j by lia. reflexivity.
+      + intros CV. destruct (D3 ltac:(intros j Hj; apply (LV2 CV); lia)) as (DL & ST).
+        split; [exact DL|]. split; [|split].
+        * intros j Hj. unfold live_at. rewrite ST by lia. reflexivity.
+        * intros j Hj. apply ST. lia.
+        * intros j Hj Hout. apply F3; lia.
+    - pose proof (move_bwd_spec len (Z.to_nat (e - pos)) e v2 L2 (vi_wf _ _ I2) ltac:(lia) ltac:(lia)
+                    ltac:(intros j Hj; apply (vinv_valid tr); [exact I2 | lia])) as M. cbv zeta in M.
+      destruct (move_bwd (Z.to_nat (e - pos)) e (e + len) (v2, L2)) as [v3 L3]. cbn [fst snd] in M.
+      destruct M as (S3 & B3 & T3 & F3 & D3). exists v3, L3. split; [reflexivity|]. split; [exact S3|]. split; [congruence|]. split.
+      + intros j Hj. rewrite T3 by exact Hj. replace (len =? 0) with false by lia.
+        replace (e + len - Z.of_nat (Z.to_nat (e - pos))) with (pos + len) by lia.
+        replace (e - Z.of_nat (Z.to_nat (e - pos))) with pos by lia.
+        destruct ((pos + len <=? j) && (j <? e + len)) eqn:E1; [|reflexivity].
+        unfold tag_at. rewrite G2 by lia. replace ((e <=? j - len) && (j - len <? e + len)) with false by lia. reflexivity.
+      + intros CV. destruct (D3 ltac:(intros j Hj; apply (LV2 CV); lia)) as (DL & ST).
+        split; [exact DL|]. split; [|split].
+        * intros j Hj. unfold live_at. rewrite ST by lia. ifs; try reflexivity.
+          apply (LV2 CV). lia.
+        * intros j Hj. rewrite ST by lia. replace (e + len - Z.of_nat (Z.to_nat (e - pos)) <=? j) with true by lia. reflexivity.
+        * intros j Hj Hout. apply F3; lia. }
+  destruct R3 as (v3 & L3 & ER & S3 & B3 & T3 & D3). rewrite ER.
+  assert (I3 : vinv tr v3) by (eapply vinv_same_store; eauto).
+  assert (Sz3 : v_size v3 = e + len) by (destruct S3 as (_ & X & _); lia).
+  (* copy-assign the new values *)
+  pose proof (assign_list_spec tags pos v3 L3 (vi_wf _ _ I3) ltac:(lia)
+                ltac:(intros j Hj; apply (vinv_valid tr); [exact I3 | unfold len, zlen in *; lia])) as [(S4 & B4 & C4) D4].
+  set (r4 := assign_list tags pos (v3, L3)) in *. cbn [fst snd].
+  change (Z.of_nat (length tags)) with len in C4, D4.
+  assert (Sz4 : v_size (fst r4) = e + len) by (destruct S4 as (_ & X & _); lia).
+  split; [eapply vinv_same_store; eauto|].
+  split.
+  { apply abs_ext; [lia | |].
+    - rewrite !zlen_app, zlen_firstn, zlen_skipn by (rewrite zlen_abs by lia; unfold e in *; lia). rewrite zlen_abs by lia. unfold len, e in *. lia.
+    - rewrite Sz4. intros j Hj. unfold tag_at. rewrite C4 by lia. fold len.
+      rewrite znth_app by lia. rewrite zlen_firstn by (rewrite zlen_abs by lia; unfold e in *; lia).
+      destruct ((pos <=? j) && (j <? pos + len)) eqn:E1.
+      + replace (j <? pos) with false by lia. rewrite znth_app by lia. fold len. replace (j - pos <? len) with true by lia. reflexivity.
+      + fold (tag_at v3 j). rewrite T3 by lia.
+        destruct (j <? pos) eqn:E4.
+        * replace ((pos + len <=? j) && (j <? e + len)) with false by lia. replace ((pos <=? j) && (j <? Z.min e (pos + len))) with false by lia.
+          unfold tag_at. rewrite G2 by lia. replace ((e <=? j) && (j <? e + len)) with false by lia.
+          rewrite znth_firstn, znth_abs by (unfold e in *; lia). reflexivity.
+        * replace ((pos + len <=? j) && (j <? e + len)) with true by lia.
+          rewrite znth_app by lia. fold len. replace (j - pos <? len) with false by lia.
+          rewrite znth_skipn, znth_abs by (unfold e in *; lia). f_equal. lia. }
+  split; [reflexivity|]. split; [congruence|].
+  split; [destruct S4 as (X & _); destruct S3 as (Y & _); lia|].
+  intros CV. destruct (D3 CV) as (DL3 & LV3 & ST3 & F3). destruct CV as [CA CB].
+  split.
+  - split; rewrite Sz4.
+    + intros j Hj. unfold st_at. rewrite C4 by lia. fold len.
+      destruct ((pos <=? j) && (j <? pos + len)) eqn:E1.
+      * unfold assigned. simpl. pose proof (LV3 j ltac:(lia)) as X. unfold live_at, st_at in X. rewrite X. reflexivity.
+      * destruct (Z_lt_ge_dec j pos) as [Lt|Ge].
+        -- rewrite F3 by lia. rewrite G2 by lia. replace ((e <=? j) && (j <? e + len)) with false by lia. apply CA. unfold e in *. lia.
+        -- apply ST3. lia.
+    + intros j Hj. unfold live_at, st_at. rewrite C4 by lia. fold len. replace ((pos <=? j) && (j <? pos + len)) with false by lia.
+      rewrite F3 by lia. rewrite G2 by lia. replace ((e <=? j) && (j <? e + len)) with false by lia. apply (CB j). unfold e in *. lia.
+  - exists len, 0. split; [|unfold e; lia].
+    eapply ldelta_eq; [eapply ldelta_trans; [apply D2 | eapply ldelta_trans; [exact DL3 | apply D4]] | unfold len, zlen; lia | lia].
+    + intros j Hj. rewrite C1. apply (CB j). unfold len, zlen, e in *. lia.
+    + intros j Hj. apply LV3. unfold len, zlen in *. lia.
+Qed.
+
+(* ------------------------------------------------------------------------------------------------ assign *)
+Lemma assign_tags_spec tr max_n tags v L : fits tr max_n -> vinv tr v -> zlen tags <= max_n ->
+  let r := assign_tags tr tags (v, L) in
+  vinv tr (fst r) /\ abs (fst r) = tags /\ cl_bad (snd r) = cl_bad L /\ v_shift (fst r) = v_shift v /\ life_ok v L (fst r) (snd r).
+Proof.
+  intros F I Hn. unfold assign_tags. pose proof (zlen_nonneg tags) as ZN. fold (zlen tags). set (n := zlen tags) in *.
+  pose proof (clear_spec tr v L I) as C. cbv zeta in C. destruct (clear (v, L)) as [v1 L1]. cbn [fst snd] in C.
+  destruct C as (I1 & _ & Sz1 & B1 & Sh1 & LO1).
+  pose proof (reserve_spec tr max_n v1 L1 n F I1 ltac:(lia)) as R. cbv zeta in R.
+  destruct (reserve tr n (v1, L1)) as [v2 L2]. cbn [fst snd] in R.
+  destruct R as (EL & I2 & Sz2 & Sh2 & C2 & A2). subst L2. unfold vl_with_size. cbn [fst snd].
+  set (v3 := with_size v2 n).
+  assert (I3 : vinv tr v3).
+  { destruct I2 as [W2 S2 Bs2 Ai2 NB2]. constructor; simpl; auto; try lia. rewrite Sh2. exact A2. }
+  pose proof (construct_list_spec KCopy tags 0 v3 L1 (vi_wf _ _ I3) ltac:(lia)
+                ltac:(intros j Hj; apply (vinv_valid tr); [exact I3 | simpl; unfold n, zlen; lia])) as [(S4 & B4 & C4) D4].
+  set (r := construct_list KCopy tags 0 (v3, L1)) in *. change (Z.of_nat (length tags)) with n in *.
+  assert (Sz4 : v_size (fst r) = n) by (destruct S4 as (_ & X & _); exact X).
+  split; [eapply vinv_same_store; eauto|].
+  split.
+  { apply abs_ext; [lia | lia |]. rewrite Sz4. intros j Hj. unfold tag_at. rewrite C4 by lia.
+    replace ((0 <=? j) && (j <? 0 + n)) with true by lia. simpl. f_equal. lia. }
+  split; [congruence|]. split; [destruct S4 as (X & _); simpl in X; lia|].
+  intros CV. destruct (life_ok_lnet _ _ _ _ LO1 CV) as ([CA1 CB1] & LN1).
+  assert (NL3 : forall j, 0 <= j -> live_at v3 j = false).
+  { intros j Hj. unfold live_at, st_at, v3. rewrite get_cell_with_size, C2. apply (CB1 j). lia. }
+  split.
+  - split; rewrite Sz4.
+    + intros j Hj. unfold st_at. rewrite C4 by lia. replace ((0 <=? j) && (j <? 0 + n)) with true by lia. reflexivity.
+    + intros j Hj. unfold live_at, st_at. rewrite C4 by lia. replace ((0 <=? j) && (j <? 0 + n)) with false by lia. apply NL3. lia.
+  - destruct (LO1 CV) as (_ & dc & dd & DL1 & E1).
+    exists (dc + n), (dd + 0). split; [|lia].
+    eapply ldelta_trans; [exact DL1 | apply D4]. intros j Hj. apply NL3. lia.
+Qed.
+
+(* ------------------------------------------------------------------------------------------------ constructors *)
+Lemma next_pow2_spec v : v <= next_pow2 v /\ 2 ^ Z.log2 (next_pow2 v) = next_pow2 v /\ 1 <= next_pow2 v.
+Proof.
+  unfold next_pow2. destruct (v <=? 1) eqn:E.
+  - split; [lia|]. split; reflexivity || lia.
+  - assert (H : 1 < v) by lia. pose proof (Z.log2_up_spec v H) as [_ U]. pose proof (Z.log2_up_nonneg v) as NN.
+    split; [exact U|]. split; [rewrite Z.log2_pow2 by exact NN; reflexivity|]. pose proof (pow2_pos (Z.log2_up v) NN). lia.
+Qed.
+
+Lemma first_shift_spec tr c : 0 <= first_shift tr c /\ c <= 2 ^ first_shift tr c.
+Proof.
+  unfold first_shift. split; [apply Z.log2_nonneg|].
+  destruct (next_pow2_spec (Z.max c (Z.quot (t_defcap tr) 2))) as (A & B & _). rewrite B. lia.
+Qed.
+
+Lemma get_buf_empty tr shift k : 3 <= max_buffers tr ->
+  get_buf (empty_bufs tr shift) k = if (k =? 0) || (k =? 1) then Some (fresh_bucket (2 ^ shift)) else None.
+Proof.
+  intros H. unfold get_buf, empty_bufs. destruct (k <? 0) eqn:E; [replace (k =? 0) with false by lia; replace (k =? 1) with false by lia; reflexivity|].
+  destruct (k =? 0) eqn:E0; [replace (Z.to_nat k) with 0%nat by lia; reflexivity|].
+  destruct (k =? 1) eqn:E1; [replace (Z.to_nat k) with 1%nat by lia; reflexivity|]. simpl.
+  replace (Z.to_nat k) with (S (S (Z.to_nat k - 2))) by lia. cbn [nth].
+  destruct (Nat.lt_ge_cases (Z.to_nat k - 2) (Z.to_nat (max_buffers tr) - 2)) as [Lt|Ge].
+  - apply nth_repeat.
+  - apply nth_overflow. rewrite repeat_length. exact Ge.
+Qed.
+
+Lemma ainv_first strat shift bs n : 0 <= shift -> base bs -> 0 <= n <= 2 ^ shift -> ainv strat shift bs n.
+Proof.
+  intros Hs [B0 B1] Hn. pose proof (bsi_facts shift n Hs ltac:(lia)) as (Bn & Sn & Cn & En).
+  assert (K : bkt shift n <= 1).
+  { pose proof (bkt_mono shift n (2 ^ shift) Hs ltac:(lia)) as M.
+    pose proof (bkt_of_start shift 1 0 Hs ltac:(lia) ltac:(pose proof (bucket_cap_pos shift 1 Hs); lia)) as (K1 & _).
+    unfold bucket_start in K1. simpl in K1. replace (shift + 1 - 1) with shift in K1 by lia. replace (2 ^ shift + 0) with (2 ^ shift) in K1 by lia. lia. }
+  split.
+  - intros b Hb. assert (b = 0 \/ b = 1) as [->| ->] by lia; assumption.
+  - intros H. destruct (Z.eq_dec (bkt shift n) 0) as [E0|E1]; [rewrite E0; exact B1|].
+    (* bucket 1 holds only index 2^shift = bucket_start 1: sub-index 0, never past the check index *)
+    exfalso. assert (E : bkt shift n = 1) by lia. rewrite E in En. unfold bucket_start in En. simpl in En.
+    replace (shift + 1 - 1) with shift in En by lia.
+    pose proof (check_index_range strat (capof shift n) ltac:(lia)). lia.
+Qed.
+
+Lemma ctor_reserve_spec tr max_n c : fits tr max_n ->
+  let v := ctor_reserve tr c in
+  vinv tr v /\ abs v = [] /\ v_size v = 0 /\ c <= 2 ^ v_shift v /\ (forall j, get_cell v j = raw) /\ clean v.
+Proof.
+  intros (F1 & F2 & F3). cbv zeta. unfold ctor_reserve.
+  destruct (first_shift_spec tr c) as [S0 S1]. set (sh := first_shift tr c) in *.
+  pose proof (Z.log2_nonneg max_n) as LN.
+  assert (G : forall j, get_cell (mkV sh (empty_bufs tr sh) 0) j = raw).
+  { intros j. unfold get_cell, get_bs. cbn [v_shift v_bufs]. rewrite bsi_eta, get_buf_empty by lia.
+    destruct ((bkt sh j =? 0) || (bkt sh j =? 1)); [|reflexivity].
+    destruct (0 <=? sub sh j); [|reflexivity]. unfold fresh_bucket. apply nth_repeat_raw. }
+  assert (B : base (empty_bufs tr sh)) by (split; unfold is_alloc; rewrite get_buf_empty by lia; reflexivity).
+  split.
+  { constructor; cbn [v_shift v_bufs v_size].
+    - split; [exact S0|]. intros b l. cbn [v_bufs v_shift]. rewrite get_buf_empty by lia.
+      destruct ((b =? 0) || (b =? 1)) eqn:E; [|discriminate]. intros H; inversion H; subst l.
+      rewrite fresh_bucket_length by (pose proof (pow2_pos sh S0); lia).
+      assert (b = 0 \/ b = 1) as [->| ->] by lia; reflexivity.
+    - lia.
+    - exact B.
+    - apply ainv_zero; assumption.
+    - unfold empty_bufs. simpl length. rewrite repeat_length. lia. }
+  split; [reflexivity|]. split; [reflexivity|]. split; [exact S1|]. split; [exact G|].
+  split; cbn [v_size]; [intros; lia|]. intros j Hj. unfold live_at, st_at. rewrite G. reflexivity.
+Qed.
+
+(* the sizing and range constructors: n elements with the given tags *)
+Lemma ctor_fill_spec tr max_n k tags L (viabs : bool) : fits tr max_n -> zlen tags <= max_n ->
+  let r := (if viabs then construct_bs k tags 0 0 else construct_list k tags 0) (with_size (ctor_reserve tr (zlen tags)) (zlen tags), L) in
+  vinv tr (fst r) /\ abs (fst r) = tags /\ cl_bad (snd r) = cl_bad L /\ clean (fst r) /\ ldelta L (snd r) (zlen tags) 0.
+Proof.
+  intros F Hn. pose proof (zlen_nonneg tags) as ZN. set (n := zlen tags) in *.
+  pose proof (ctor_reserve_spec tr max_n n F) as C. cbv zeta in C. destruct C as (I0 & _ & Sz0 & Cap & G0 & _).
+  set (v0 := ctor_reserve tr n) in *. set (v1 := with_size v0 n).
+  assert (I1 : vinv tr v1).
+  { destruct I0 as [W0 S0 Bs0 Ai0 NB0]. constructor.
+    - exact W0.
+    - unfold v1. cbn [v_size with_size]. lia.
+    - exact Bs0.
+    - unfold v1. cbn [v_shift v_bufs v_size with_size]. apply ainv_first; [apply W0 | exact Bs0 | lia].
+    - exact NB0. }
+  assert (E : (if viabs then construct_bs k tags 0 0 else construct_list k tags 0) (v1, L) = construct_list k tags 0 (v1, L)).
+  { destruct viabs; [|reflexivity]. rewrite construct_bs_eq; cbn [fst]; try lia; [reflexivity | apply (vi_wf _ _ I1) |].
+    change (bucket_cap (v_shift v1) 0) with (2 ^ v_shift v0). unfold n, zlen in *. lia. }
+  cbv zeta. fold v0. fold v1. rewrite E.
+  pose proof (construct_list_spec k tags 0 v1 L (vi_wf _ _ I1) ltac:(lia)
+                ltac:(intros j Hj; apply (vinv_valid tr); [exact I1 | simpl; unfold n, zlen; lia])) as [(S4 & B4 & C4) D4].
+  set (r := construct_list k tags 0 (v1, L)) in *. change (Z.of_nat (length tags)) with n in *.
+  assert (Sz4 : v_size (fst r) = n) by (destruct S4 as (_ & X & _); exact X).
+  split; [eapply vinv_same_store; eauto|].
+  split.
+  { apply abs_ext; [lia | lia |]. rewrite Sz4. intros j Hj. unfold tag_at. rewrite C4 by lia.
+    replace ((0 <=? j) && (j <? 0 + n)) with true by lia. simpl. f_equal. lia. }
+  split; [exact B4|]. split.
+  - split; rewrite Sz4.
+    + intros j Hj. unfold st_at. rewrite C4 by lia. replace ((0 <=? j) && (j <? 0 + n)) with true by lia. reflexivity.
+    + intros j Hj. unfold live_at, st_at. rewrite C4 by lia. replace ((0 <=? j) && (j <? 0 + n)) with false by lia.
+      unfold v1. rewrite get_cell_with_size, G0. reflexivity.
+  - apply D4. intros j Hj. unfold v1. rewrite get_cell_with_size, G0. reflexivity.
+Qed.
+
+(* a moved-out vector: fresh first two buffers with the same shift *)
+Lemma empty_vec_spec tr max_n sh : fits tr max_n -> 0 <= sh ->
+  let v := mkV sh (empty_bufs tr sh) 0 in
+  vinv tr v /\ abs v = [] /\ clean v.
+Proof.
+  intros (F1 & F2 & F3) S0. cbv zeta. pose proof (Z.log2_nonneg max_n) as LN.
+  assert (G : forall j, get_cell (mkV sh (empty_bufs tr sh) 0) j = raw).
+  { intros j. unfold get_cell, get_bs. cbn [v_shift v_bufs]. rewrite bsi_eta, get_buf_empty by lia.
+    destruct ((bkt sh j =? 0) || (bkt sh j =? 1)); [|reflexivity].
+    destruct (0 <=? sub sh j); [|reflexivity]. unfold fresh_bucket. apply nth_repeat_raw. }
+  assert (B : base (empty_bufs tr sh)) by (split; unfold is_alloc; rewrite get_buf_empty by lia; reflexivity).
+  split.
+  { constructor; cbn [v_shift v_bufs v_size].
+    - split; [exact S0|]. intros b l. cbn [v_bufs v_shift]. rewrite get_buf_empty by lia.
+      destruct ((b =? 0) || (b =? 1)) eqn:E; [|discriminate]. intros H; inversion H; subst l.
+      rewrite fresh_bucket_length by (pose proof (pow2_pos sh S0); lia).
+      assert (b = 0 \/ b = 1) as [->| ->] by lia; reflexivity.
+    - lia.
+    - exact B.
+    - apply ainv_zero; assumption.
+    - unfold empty_bufs. simpl length. rewrite repeat_length. lia. }
+  split; [reflexivity|].
+  split; cbn [v_size]; [intros; lia|]. intros j Hj. unfold live_at, st_at. rewrite G. reflexivity.
+Qed.
+
+(* reading every element of a vector *)
+Lemma use_all_spec v L : cl_bad (use_all v L) = cl_bad L /\ ((forall j, 0 <= j < v_size v -> live_at v j = true) -> use_all v L = L).
+Proof.
+  unfold use_all, cells.
+  assert (G : forall (l : list Z) L0, cl_bad (fold_left (fun L c => c_use c L) (map (get_cell v) l) L0) = cl_bad L0 /\
+              ((forall j, In j l -> live_at v j = true) -> fold_left (fun L c => c_use c L) (map (get_cell v) l) L0 = L0)).
+  { induction l as [|x r IH]; intros L0; [split; reflexivity|]. simpl.
+    destruct (IH (c_use (get_cell v x) L0)) as [A B]. split.
+    - rewrite A. unfold c_use. destruct (c_st (get_cell v x)); reflexivity.
+    - intros H. rewrite B by (intros j Hj; apply H; right; exact Hj).
+      pose proof (H x ltac:(left; reflexivity)) as X. unfold live_at, st_at in X. unfold c_use. destruct (c_st (get_cell v x)); try discriminate; reflexivity. }
+  destruct (G (zseq 0 (v_size v)) L) as [A B]. split; [exact A|].
+  intros H. apply B. intros j Hj. apply H. unfold zseq in Hj. apply in_map_iff in Hj. destruct Hj as (k & <- & Hk).
+  apply in_seq in Hk. lia.
+Qed.
+
+Lemma last_znth l : last l 0 = znth l (zlen l - 1).
+Proof.
+  unfold znth, zlen. induction l as [|x r IH]; [reflexivity|].
+  destruct r as [|y r']; [reflexivity|].
+  change (last (x :: y :: r') 0) with (last (y :: r') 0). rewrite IH.
+  simpl length. replace (Z.to_nat (Z.of_nat (S (S (length r'))) - 1)) with (S (Z.to_nat (Z.of_nat (S (length r')) - 1))) by lia. reflexivity.
 Qed.
